@@ -64,10 +64,17 @@ def _diff(a, b, parent="Module", field="body") -> Optional[dict]:
 
 def shape(before: str, after: str) -> dict:
     """Signature of the first structural difference between two texts."""
+    import textwrap
+
+    def parse(t):
+        try:
+            return ast.parse(t)
+        except (SyntaxError, ValueError):
+            return ast.parse(textwrap.dedent(t))      # indented fragments
     try:
-        ta, tb = ast.parse(before), ast.parse(after)
+        ta, tb = parse(before), parse(after)
     except (SyntaxError, ValueError):
-        return {"old": "?", "new": "?", "parent": "?", "field": "?", "old_src": "", "new_src": ""}
+        return {"old": "?", "new": "?", "parent": "?", "field": "?", "old_src": "", "new_src": "", "features": []}
     d = _diff(ta, tb)
     if not d:
         return {"old": "=", "new": "=", "parent": "Module", "field": "body", "old_src": "", "new_src": "", "features": []}
@@ -103,7 +110,10 @@ def matches_signature(entry: dict, stage: str, sh: dict, case_text: str = "") ->
     cls = entry.get("class", {})
     if cls.get("kind") != "trace-signature":
         return False
-    if cls.get("stage") and cls["stage"] != stage:
+    if entry.get("stage_regex"):
+        if not re.fullmatch(entry["stage_regex"], stage):
+            return False
+    elif cls.get("stage") and cls["stage"] != stage:
         return False
     for key in ("old", "new", "parent", "field"):
         if key in cls and not re.fullmatch(cls[key], sh.get(key, "")):
